@@ -27,7 +27,7 @@ OFFS2 = [(0, 0), (4, 0), (-4, 0), (0, 4), (0, -4), (8, 0), (3, 4), (-3, -4), (2,
 # ------------------------------------------------------------------------------------------------
 # case generation (pure: rng only)
 # ------------------------------------------------------------------------------------------------
-def gen_scene(rng, n, m, flavor="mixed", dim=None, mode=None, policy=None, fpv=None, cheap=False):
+def gen_scene(rng, n, m, flavor="mixed", dim=None, mode=None, policy=None, fpv=None, cheap=False, family=None):
     if flavor == "continuous":
         dim = "3d"
     dim = dim or ("3d" if rng.random() < 0.62 else "2d")
@@ -35,7 +35,7 @@ def gen_scene(rng, n, m, flavor="mixed", dim=None, mode=None, policy=None, fpv=N
     mode = mode or (rng.choice(modes3) if dim == "3d" else rng.choice(["CENTERDISTANCE", "IOU2D"]))
     policy = policy or rng.choice(POLICIES)
     fpv = (rng.random() < 0.3) if fpv is None else fpv
-    family = "autoware" if dim == "3d" or rng.random() < 0.7 else "traffic_light"
+    family = family or ("autoware" if dim == "3d" or rng.random() < 0.7 else "traffic_light")
     base = LABELS_AW if family == "autoware" else LABELS_TL
     pool = rng.sample(base, rng.randint(2, min(5, len(base))))
     if flavor == "contested":
@@ -54,8 +54,11 @@ def gen_scene(rng, n, m, flavor="mixed", dim=None, mode=None, policy=None, fpv=N
             targets.append("FP")
         if rng.random() < 0.25 and len(targets) > 1:
             targets.pop(rng.randrange(len(targets)))          # some GT label without a threshold
-    if targets is None or rng.random() < 0.3:
+    if (targets is None and rng.random() < 0.6) or (targets is not None and rng.random() < 0.3):
         thresholds = None
+    elif targets is None:
+        # a radius list without target labels: there is no label to look a radius up for, so no radius applies
+        thresholds = [rng.choice(THR_IOU if mode.startswith("IOU") else THR_DIST) for _ in range(rng.randint(1, 3))]
     else:
         tp = THR_IOU if mode.startswith("IOU") else THR_DIST
         if dim == "2d" and not mode.startswith("IOU"):
@@ -132,8 +135,21 @@ def gen_scene(rng, n, m, flavor="mixed", dim=None, mode=None, policy=None, fpv=N
                 w, h = rng.choice(ROI_WH)
                 roi = [rng.randint(0, 300), rng.randint(0, 300), w, h]
             ests.append({"roi": roi, "label": est_label(near), "frame": fr})
+    # input REPRESENTATIONS: the dataset's name of a label (several names map to one enum member), keyword arguments left at their
+    # documented defaults instead of being passed explicitly
+    for o in ests + gts:
+        o["nm"] = rng.choice([0, 0, 1, 2])
+    omit = []
+    if policy == "DEFAULT" and rng.random() < 0.5:
+        omit.append("policy")
+    if mode == "CENTERDISTANCE" and rng.random() < 0.3:
+        omit.append("mode")
+    if dim == "3d" and rng.random() < 0.4 and all(o["frame"] == "base_link" for o in ests + gts):
+        omit.append("transforms")       # nothing in an ego-frame scene needs an ego pose (a result's plane distance does for other frames)
+    if targets is None and thresholds is None and rng.random() < 0.5:
+        omit.append("targets")
     return {"dim": dim, "family": family, "mode": mode, "policy": policy, "fpv": fpv, "targets": targets,
-            "thresholds": thresholds, "est": ests, "gt": gts}
+            "thresholds": thresholds, "est": ests, "gt": gts, "omit": omit}
 
 
 def witness_cases():
@@ -248,6 +264,11 @@ def _impl():
     return _IMPL
 
 
+# dataset names that the label tables map to one enum member (the name is carried by Label.name, the member by Label.label)
+ALT_NAMES = {"CAR": ["car", "vehicle.car", "vehicle.construction"], "TRUCK": ["truck", "vehicle.truck", "trailer"],
+             "BUS": ["bus", "vehicle.bus", "vehicle.bus (bendy & rigid)"], "BICYCLE": ["bicycle", "vehicle.bicycle", "BICYCLE"],
+             "MOTORBIKE": ["motorbike", "vehicle.motorcycle", "motorcycle"], "PEDESTRIAN": ["pedestrian", "pedestrian.adult", "pedestrian.child"],
+             "UNKNOWN": ["unknown", "movable_object.debris", "static_object.bicycle rack"]}
 YAWS = {0: (1.0, 0.0, 0.0, 0.0), 2: (0.0, 0.0, 0.0, 1.0), 1: (math.sqrt(0.5), 0.0, 0.0, math.sqrt(0.5))}
 
 
@@ -255,9 +276,9 @@ def build(case):
     I = _impl()
     fam = I["AutowareLabel"] if case["family"] == "autoware" else I["TrafficLightLabel"]
 
-    def lab(name):
+    def lab(name, nm=0):
         member = fam[name]
-        return I["Label"](member, member.value, [])
+        return I["Label"](member, ALT_NAMES.get(name, [member.value, "alt." + member.value, member.value.upper()])[nm % 3], [])
 
     def mk(o, i, who):
         fr = I["FrameID"].from_value(o["frame"])
@@ -266,8 +287,8 @@ def build(case):
                 unix_time=100, frame_id=fr, position=(o["p"][0] / 8.0, o["p"][1] / 8.0, o["p"][2] / 8.0),
                 orientation=(I["Quaternion"](axis=[0.0, 0.0, 1.0], angle=o["yaw_rad"]) if "yaw_rad" in o else I["Quaternion"](*YAWS[o["yaw"]])),
                 shape=I["Shape"](I["ShapeType"].BOUNDING_BOX, tuple(o["size"])),
-                semantic_score=0.5, semantic_label=lab(o["label"]), velocity=(0.0, 0.0, 0.0), uuid=f"{who}{i}", pointcloud_num=10)
-        return I["DynamicObject2D"](unix_time=100, frame_id=fr, semantic_score=0.5, semantic_label=lab(o["label"]),
+                semantic_score=0.5, semantic_label=lab(o["label"], o.get("nm", 0)), velocity=(0.0, 0.0, 0.0), uuid=f"{who}{i}", pointcloud_num=10)
+        return I["DynamicObject2D"](unix_time=100, frame_id=fr, semantic_score=0.5, semantic_label=lab(o["label"], o.get("nm", 0)),
                                     roi=tuple(o["roi"]), uuid=f"{who}{i}")
 
     ests = [mk(o, i, "e") for i, o in enumerate(case["est"])]
@@ -299,6 +320,22 @@ def index_results(results, ests, gts):
             e = -1 if e is None else e
         pairs.append([e, g])
     return pairs, foreign
+
+
+def obj_fp(o):
+    """every attribute of an estimate / ground truth that matching could rewrite (3D box or 2D ROI), read attribute by attribute"""
+    lab = o.semantic_label
+    fp = [type(o).__name__, o.uuid, o.unix_time, o.frame_id.value, float(o.semantic_score), lab.label.name, lab.name, list(lab.attributes)]
+    roi = getattr(o, "roi", None)
+    if roi is not None:
+        fp += [[int(x) for x in roi.offset], [int(x) for x in roi.size]]
+    st = getattr(o, "state", None)
+    if st is not None and getattr(st, "position", None) is not None:
+        fp += [[float(x) for x in st.position]]
+        if getattr(st, "orientation", None) is not None:
+            fp += [[float(x) for x in st.orientation.q], [float(x) for x in st.size],
+                   None if st.velocity is None else [float(x) for x in st.velocity], getattr(o, "pointcloud_num", None)]
+    return fp
 
 
 def read_facts(ests, gts, targets, thresholds, policy, mode_name, transforms):
@@ -352,6 +389,10 @@ def read_facts(ests, gts, targets, thresholds, policy, mode_name, transforms):
     return facts, ok, live, on_radius
 
 
+def _who(changed, n_est):
+    return [f"estimate {i}" if i < n_est else f"ground truth {i - n_est}" for i in changed]
+
+
 def observe(case):
     """Run get_object_results and read the facts the model is fed, all through public API."""
     I = _impl()
@@ -362,18 +403,29 @@ def observe(case):
     thresholds = None if case["thresholds"] is None else list(case["thresholds"])
     targets_arg = None if targets is None else list(targets)
     ests_arg, gts_arg = list(ests), list(gts)
+    before = [obj_fp(o) for o in ests + gts]
+    kw = {"target_labels": targets_arg, "matching_label_policy": policy, "matching_mode": mode, "matchable_thresholds": thresholds,
+          "transforms": transforms}
+    omit = case.get("omit", [])
+    for key, name in (("policy", "matching_label_policy"), ("mode", "matching_mode"), ("transforms", "transforms"), ("targets", "target_labels")):
+        if key in omit:
+            del kw[name]               # left at the documented default (DEFAULT / CENTERDISTANCE / None / None)
+    if "targets" in omit:
+        del kw["matchable_thresholds"]
+    if "transforms" in omit:
+        transforms = None
     try:
-        results = I["get_object_results"](task, ests_arg, gts_arg, target_labels=targets_arg, matching_label_policy=policy,
-                                          matching_mode=mode, matchable_thresholds=thresholds, transforms=transforms)
+        results = I["get_object_results"](task, ests_arg, gts_arg, **kw)
     except Exception as e:  # a (mutated) matcher may raise: that is an observation, not a harness error
         return {"error": f"{type(e).__name__}: {e}"}
     pairs, foreign = index_results(results, ests, gts)
     unchanged = (len(ests_arg) == len(ests) and all(a is b for a, b in zip(ests_arg, ests))
                  and len(gts_arg) == len(gts) and all(a is b for a, b in zip(gts_arg, gts))
                  and (targets_arg == targets) and (thresholds == case["thresholds"]))
+    changed = [i for i, (a, o) in enumerate(zip(before, ests + gts)) if a != obj_fp(o)]
     facts, ok, live, on_radius = read_facts(ests, gts, targets, case["thresholds"], policy, case["mode"], transforms)
     return {"pairs": pairs, "foreign": foreign, "lists_unchanged": unchanged, "facts": facts, "ok": ok, "live": live,
-            "maximize": case["mode"].startswith("IOU"), "on_radius": on_radius}
+            "maximize": case["mode"].startswith("IOU"), "on_radius": on_radius, "objects_changed": _who(changed, len(ests))}
 
 
 # ------------------------------------------------------------------------------------------------
@@ -394,21 +446,34 @@ def observe_manager(case):
     om = I["om"]
     _, ests, gts, _, _ = build(case)
     names = [t.lower() for t in case["targets"]]
-    cfg = {"evaluation_task": "fp_validation" if case["fpv"] else "detection", "target_labels": names,
-           "max_x_position": 1000.0, "max_y_position": 1000.0, "max_matchable_radii": case["thresholds"],
+    two_d = case["dim"] == "2d"
+    task = "fp_validation" if case["fpv"] else ("tracking" if case.get("tracking") else "detection")
+    cfg = {"evaluation_task": task + ("2d" if two_d else ""), "target_labels": names,
+           "max_matchable_radii": case["thresholds"],
            "merge_similar_labels": False, "matching_label_policy": case["policy"], "ignore_attributes": None,
-           "label_prefix": "autoware", "min_point_numbers": [0] * len(names)}
+           "label_prefix": "autoware"}
+    if not two_d:
+        # a 2D evaluator takes no range and no point-number criteria (nothing on an image has a position)
+        cfg.update({"max_x_position": 1000.0, "max_y_position": 1000.0, "min_point_numbers": [0] * len(names)})
+    if case.get("uuids") is not None:
+        cfg["target_uuids"] = [f"g{i}" for i in case["uuids"]]
     if not case["fpv"]:
-        cfg.update({"center_distance_thresholds": [1.0], "plane_distance_thresholds": [1.0], "iou_2d_thresholds": [0.5],
-                    "iou_3d_thresholds": [0.5]})
+        cfg.update({"center_distance_thresholds": [1.0], "iou_2d_thresholds": [0.5]})
+        if not two_d:
+            cfg.update({"plane_distance_thresholds": [1.0], "iou_3d_thresholds": [0.5]})
     rdir = os.path.join(BUILD, "C01_manager_results")
-    ec = PerceptionEvaluationConfig([], "base_link", rdir, cfg, False)
+    ec = PerceptionEvaluationConfig([], FRAMES["2d"] if two_d else "base_link", rdir, cfg, False)
     manager = PerceptionEvaluationManager(ec)
     F = I["FrameID"]
-    fgt = FrameGroundTruth(100, "0", list(gts), transforms=[I["HomogeneousMatrix"]((1.0, -2.0, 0.0), (1.0, 0.0, 0.0, 0.0), src=F.BASE_LINK, dst=F.MAP)])
+    if two_d:
+        fgt = FrameGroundTruth(100, "0", list(gts))
+        cof = CriticalObjectFilterConfig(ec, names)
+    else:
+        fgt = FrameGroundTruth(100, "0", list(gts), transforms=[I["HomogeneousMatrix"]((1.0, -2.0, 0.0), (1.0, 0.0, 0.0, 0.0), src=F.BASE_LINK, dst=F.MAP)])
+        cof = CriticalObjectFilterConfig(ec, names, max_x_position_list=[1000.0] * len(names), max_y_position_list=[1000.0] * len(names))
     ests_arg = list(ests)
-    cof = CriticalObjectFilterConfig(ec, names, max_x_position_list=[1000.0] * len(names), max_y_position_list=[1000.0] * len(names))
     pf = PerceptionPassFailConfig(ec, names, matching_threshold_list=[1.0] * len(names))
+    before = [obj_fp(o) for o in ests + gts]
     try:
         res = manager.add_frame_result(100, fgt, ests_arg, cof, pf)
     except Exception as e:
@@ -422,11 +487,18 @@ def observe_manager(case):
     pairs, foreign = index_results(res.object_results, f_ests, f_gts)
     unchanged = (len(ests_arg) == len(ests) and all(a is b for a, b in zip(ests_arg, ests))
                  and len(fgt.objects) == len(gts) and all(a is b for a, b in zip(fgt.objects, gts)))
+    changed = [i for i, (a, o) in enumerate(zip(before, ests + gts)) if a != obj_fp(o)]
     policy = om.MatchingLabelPolicy[case["policy"]]
     facts, ok, live, on_radius = read_facts(f_ests, f_gts, manager.target_labels, manager.filtering_params["max_matchable_radii"],
                                             policy, "CENTERDISTANCE", fgt.transforms)
+    # the ground truths the evaluator must hand to the matcher, stated on the case: label among the targets (or FP-labelled, always kept)
+    # and, with target uuids, one of those uuids
+    gi = {id(o): i for i, o in enumerate(gts)}
     return {"pairs": pairs, "foreign": foreign, "lists_unchanged": unchanged, "facts": facts, "ok": ok, "live": live,
-            "maximize": False, "on_radius": on_radius, "n_filtered": [len(f_ests), len(f_gts)]}
+            "maximize": False, "on_radius": on_radius, "n_filtered": [len(f_ests), len(f_gts)], "objects_changed": _who(changed, len(ests)),
+            "gt_ids_to_matcher": [gi[id(o)] for o in f_gts],
+            # the evaluator's target labels as the configuration object holds them (label conversion is C14: "animal" is UNKNOWN)
+            "manager_targets": [l.name for l in manager.target_labels]}
 
 
 # ------------------------------------------------------------------------------------------------
@@ -472,6 +544,62 @@ def strictly_better(maximize, a, b):
     return a > b if maximize else a < b
 
 
+def expected_threshold(case, gt_label, targets=None):
+    """Documented get_label_threshold, stated on the CASE (label names, never the library's lookup): the matchable radius
+    configured for a ground truth is the entry of the radius list at the position of the ground truth's label in the
+    target-label list; none without a target list / radius list or for a label that is not a target."""
+    targets, thresholds = (case["targets"] if targets is None else targets), case["thresholds"]
+    if targets is None or thresholds is None or gt_label not in targets:
+        return None
+    return float(thresholds[targets.index(gt_label)])
+
+
+def expected_live(case, obs):
+    """The matchable cells (same coordinate / camera frame and, when a radius is configured for the ground truth's label,
+    a score STRICTLY better than it), recomputed without FrameID.__eq__, get_label_threshold and is_better_than: frames and
+    labels are the ones the objects were BUILT with (manager path: the attributes of the filtered objects), the radius comes
+    from expected_threshold, the direction from the mode name.  Returns (live table, radius per ground truth)."""
+    f = obs["facts"]
+    if case.get("via") == "manager":
+        ef, gf, gl = f["est_frame_name"], f["gt_frame_name"], f["gt_label"]
+    else:
+        ef, gf, gl = [o["frame"] for o in case["est"]], [o["frame"] for o in case["gt"]], [o["label"] for o in case["gt"]]
+    maximize = case["mode"].startswith("IOU")
+    thr = [expected_threshold(case, l, obs.get("manager_targets")) for l in gl]
+    live = []
+    for e in range(len(ef)):
+        row = []
+        for g in range(len(gf)):
+            v = f["value"][e][g]
+            row.append(ef[e] == gf[g] and v is not None and (thr[g] is None or strictly_better(maximize, v, thr[g])))
+        live.append(row)
+    return live, thr
+
+
+def helpers_vs_documentation(case, obs):
+    """every cell of the matchable table the library's helpers produce (frame_id ==, get_label_threshold, is_better_than) against
+    expected_live: a helper that is stricter than documented only turns pairs into legal "unpaired estimates", which no clause about
+    the formed pairs can see"""
+    f = obs["facts"]
+    live, thr = expected_live(case, obs)
+    for g, (a, b) in enumerate(zip(f["gt_thr"], thr)):
+        if a != b:
+            return (f"get_label_threshold gives {a} for ground truth {g} (label {f['gt_label'][g]}) but the radius configured for that label "
+                    f"(targets {obs.get('manager_targets', case['targets'])}, radii {case['thresholds']}) is {b}")
+    names = case.get("via") != "manager"
+    for e, row in enumerate(live):
+        for g, want in enumerate(row):
+            same = (case["est"][e]["frame"] == case["gt"][g]["frame"]) if names else (f["est_frame_name"][e] == f["gt_frame_name"][g])
+            if bool(f["same_frame_api"][e][g]) != same:
+                return (f"estimate {e} was built in frame {f['est_frame_name'][e]} and ground truth {g} in frame {f['gt_frame_name'][g]} but "
+                        f"frame_id == says {f['same_frame_api'][e][g]}")
+            if bool(obs["live"][e][g]) != want:
+                return (f"estimate {e} ({f['est_frame_name'][e]}) / ground truth {g} ({f['gt_frame_name'][g]}): score {f['value'][e][g]}, radius of the "
+                        f"ground truth's label {thr[g]}: the pair is {'matchable' if want else 'not matchable'} as documented (same frame, "
+                        f"score strictly better than the radius) but frame_id == / is_better_than say {obs['live'][e][g]}")
+    return None
+
+
 def oracle_c01(case, obs):
     if "__harness_exception__" in obs:
         return f"the implementation could not be observed: {obs['__harness_exception__']}"
@@ -483,6 +611,9 @@ def oracle_c01(case, obs):
         return "a result refers to an object that is not in the input lists"
     if not obs["lists_unchanged"]:
         return "the caller's lists were modified (not the same objects in the same order afterwards)"
+    if obs.get("objects_changed"):
+        return (f"the caller's objects were modified: {', '.join(obs['objects_changed'][:4])} no longer carry the uuid / time / frame / score / "
+                f"label / geometry they were handed over with")
     es = [e for e, _ in pairs]
     gs = [g for _, g in pairs if g is not None]
     if any(not (0 <= e < n) for e in es) or any(not (0 <= g < m) for g in gs):
@@ -493,26 +624,35 @@ def oracle_c01(case, obs):
     if len(set(gs)) != len(gs):
         d = sorted({g for g in gs if gs.count(g) > 1})
         return f"ground truth(s) {d} are paired with more than one estimate"
+    want_live, want_thr = expected_live(case, obs)
     for e, g in pairs:
         if g is None:
             continue
         if f["est_frame_name"][e] != f["gt_frame_name"][g] or not f["same_frame_api"][e][g]:
             return f"estimate {e} ({f['est_frame_name'][e]}) is paired with ground truth {g} ({f['gt_frame_name'][g]}): different frames"
-        thr = f["gt_thr"][g]
-        if thr is not None:
-            v = f["value"][e][g]
-            if v is None or not strictly_better(obs["maximize"], v, thr) or not obs["live"][e][g]:
-                return (f"estimate {e} is paired with ground truth {g} although its score {v} is not strictly better than the "
-                        f"matchable threshold {thr} of that label")
-    if case["fpv"]:
+        for thr in (f["gt_thr"][g], want_thr[g]):      # the library's lookup and the radius read off the case
+            if thr is not None:
+                v = f["value"][e][g]
+                if v is None or not strictly_better(obs["maximize"], v, thr) or not obs["live"][e][g]:
+                    return (f"estimate {e} is paired with ground truth {g} although its score {v} is not strictly better than the "
+                            f"matchable threshold {thr} of that label")
+        if not want_live[e][g]:
+            return f"estimate {e} is paired with ground truth {g} although the pair is not matchable (frame / radius of the ground truth's label)"
+    if case.get("via") == "manager" and "gt_ids_to_matcher" in obs:
+        want = [i for i, g in enumerate(case["gt"]) if g["label"] == "FP" or (g["label"] in obs["manager_targets"]
+                                                                               and (case.get("uuids") is None or i in case["uuids"]))]
+        if want != obs["gt_ids_to_matcher"]:
+            return (f"evaluator with target labels {obs['manager_targets']} and target uuids {case.get('uuids')}: ground truths "
+                    f"{obs['gt_ids_to_matcher']} take part in the matching but the configuration selects {want}")
+    if case["fpv"] or case.get("uuids") is not None:
         lone = [e for e, g in pairs if g is None]
         if lone:
-            return f"FP validation: unpaired estimate(s) {lone} were not dropped"
+            return f"{'FP validation' if case['fpv'] else 'evaluator with target uuids'}: unpaired estimate(s) {lone} were not dropped"
     else:
         if sorted(es) != list(range(n)):
             missing = sorted(set(range(n)) - set(es))
             return f"estimate(s) {missing} appear in no result"
-    return None
+    return helpers_vs_documentation(case, obs)
 
 
 # ------------------------------------------------------------------------------------------------
@@ -553,11 +693,12 @@ class MatchCorr(Corr):
         return {"case": case, "observed": small}
 
     def distribution(self, cases, obs):
-        d = {"dim": {}, "mode": {}, "policy": {}, "fpv": 0, "no_thresholds": 0, "empty_est": 0, "empty_gt": 0, "errors": 0,
+        d = {"dim": {}, "mode": {}, "policy": {}, "kwargs_left_at_default": {}, "objects_with_alternative_label_name": 0,
+             "radius_list_without_target_labels": 0, "fpv": 0, "no_thresholds": 0, "empty_est": 0, "empty_gt": 0, "errors": 0,
              "n_hist": {}, "m_hist": {}, "frames_used": {}, "pairs": 0, "unpaired_results": 0, "scores_exactly_on_radius": 0,
              "cells_nan_frame": 0, "cells_nan_radius": 0, "cells_live": 0, "scenes_with_score_tie": 0,
              "scenes_with_contested_gt": 0, "scenes_with_incompatible_pair_matched": 0, "scenes_with_unknown_est": 0,
-             "scenes_with_fp_gt": 0, "runtime_observations": {"caller_lists_unchanged": 0, "no_foreign_objects": 0}}
+             "scenes_with_fp_gt": 0, "runtime_observations": {"caller_lists_unchanged": 0, "caller_objects_unchanged": 0, "no_foreign_objects": 0}}
 
         def bump(h, k):
             h[str(k)] = h.get(str(k), 0) + 1
@@ -568,6 +709,13 @@ class MatchCorr(Corr):
         for c, o in zip(cases, obs):
             bump(d["dim"], c["dim"]); bump(d["mode"], c["mode"]); bump(d["policy"], c["policy"])
             d["fpv"] += bool(c["fpv"]); d["no_thresholds"] += c["thresholds"] is None
+            if c.get("via") == "manager":
+                d["manager_tracking_task"] = d.get("manager_tracking_task", 0) + bool(c.get("tracking"))
+                d["manager_target_uuids"] = d.get("manager_target_uuids", 0) + (c.get("uuids") is not None)
+            for k in c.get("omit", []) if "via" not in c else []:
+                bump(d["kwargs_left_at_default"], k)
+            d["objects_with_alternative_label_name"] += sum(1 for x in c["est"] + c["gt"] if x.get("nm", 0) % 3 != 0)
+            d["radius_list_without_target_labels"] += c["targets"] is None and c["thresholds"] is not None
             d["empty_est"] += not c["est"]; d["empty_gt"] += not c["gt"]
             bump(d["n_hist"], bucket(len(c["est"]))); bump(d["m_hist"], bucket(len(c["gt"])))
             bump(d["frames_used"], len({x["frame"] for x in c["est"] + c["gt"]}))
@@ -575,6 +723,7 @@ class MatchCorr(Corr):
                 d["errors"] += 1
                 continue
             d["runtime_observations"]["caller_lists_unchanged"] += bool(o["lists_unchanged"])
+            d["runtime_observations"]["caller_objects_unchanged"] += not o.get("objects_changed")
             d["runtime_observations"]["no_foreign_objects"] += not o["foreign"]
             d["pairs"] += sum(1 for _, g in o["pairs"] if g is not None)
             d["unpaired_results"] += sum(1 for _, g in o["pairs"] if g is None)
@@ -613,19 +762,33 @@ class ManagerCorr(MatchCorr):
         k = 90 if tier == "quick" else 1200
         for i in range(k):
             n, m = (rng.randint(0, 3), rng.randint(0, 3)) if i % 6 == 0 else (rng.randint(1, 8), rng.randint(1, 8))
-            c = gen_scene(rng, n, m, "contested" if rng.random() < 0.5 else "mixed", dim="3d", mode="CENTERDISTANCE")
+            dim = "2d" if i % 3 == 2 else "3d"           # every third scene: ROI objects through a detection2d / fp_validation2d / tracking2d evaluator
+            c = gen_scene(rng, n, m, "contested" if rng.random() < 0.5 else "mixed", dim=dim, mode="CENTERDISTANCE", family="autoware")
             labels = sorted({o["label"] for o in c["est"] + c["gt"] if o["label"] not in ("FP", "UNKNOWN")}) or ["CAR"]
             rng.shuffle(labels)
             if len(labels) > 1 and rng.random() < 0.3:
                 labels.pop()                                  # a label that the manager filters out
             c["targets"] = labels
-            c["thresholds"] = None if rng.random() < 0.3 else [rng.choice(THR_DIST) for _ in labels]
+            pool = THR_DIST if dim == "3d" else [4.0, 5.0, 8.0, 10.0, 0.0, 1000.0, 12.0, 2.0]
+            c["thresholds"] = None if rng.random() < 0.3 else [rng.choice(pool) for _ in labels]
             for o in c["est"] + c["gt"]:
                 if o["frame"] == "lidar_top":
                     o["frame"] = "map"
             c["via"] = "manager"
+            c["tracking"] = (not c["fpv"]) and rng.random() < 0.3          # a tracking(2d) evaluator matches the same way
+            if m and rng.random() < 0.25:
+                # target uuids: only these ground truths (and FP-labelled ones) reach the matcher; afterwards results without ground truth are
+                # dropped -- the observable is the matcher's output without its unpaired estimates, as in FP validation
+                c["uuids"] = sorted(rng.sample(range(m), rng.randint(1, m)))
             out.append(c)
         return out
+
+    def coq_term(self, case, obs):
+        if "error" in obs or obs["foreign"]:
+            return "false"
+        drop_unpaired = bool(case["fpv"]) or case.get("uuids") is not None
+        return (f"(check_case {case['mode']} P_{case['policy']} {blit(drop_unpaired)} {facts_term(obs['facts'])} "
+                f"{pairs_term(obs['pairs'])} {llit([bl(r) for r in obs['ok']])} {llit([bl(r) for r in obs['live']])})")
 
     def run_impl(self, case):
         return observe_manager(case)
@@ -649,18 +812,26 @@ class C01(Prop):
                   "are in range, FP validation yields no result without ground truth and [] when there is no ground truth. "
                   "The model is compared with get_object_results on every generated scene (index pairs, in order), together with the model's "
                   "is_matchable and NaN-cell tables against MatchingLabelPolicy.is_matchable / frame ids / is_better_than; a second "
-                  "correspondence observes PerceptionEvaluationManager.add_frame_result(...).object_results on filtered 3D scenes.")
+                  "correspondence observes PerceptionEvaluationManager.add_frame_result(...).object_results on filtered 3D and 2D scenes "
+                  "(detection / fp_validation / tracking evaluators and their 2d variants, with and without target uuids). Oracle: the matchable "
+                  "table of the library's helpers (frame_id ==, get_label_threshold, is_better_than) is compared cell by cell with one recomputed "
+                  "from the frames and labels the objects were built with and the radius at the index of the ground truth's label; every "
+                  "estimate / ground truth is fingerprinted attribute by attribute before and after the call.")
     level_note = ("Trusted: Coq kernel+vm_compute; the hand-written model Model/Matching.v (tied by this run's correspondence); the matching "
                   "values themselves are read from the public matching classes (their geometric meaning is C06). Non-mutation of the "
                   "caller's lists is a runtime observation checked on every case, not a theorem.")
     rule = ("scenes with 0-16 estimates x 0-16 ground truths (thorough: 0-24) on the 1/8 lattice, 1-3 frame ids, 2-5 labels with duplicates, "
             "UNKNOWN / FP labels, contested GTs, exact ties, scores exactly on the radius; 4 modes x 3 policies x thresholds list|None x "
-            "3D boxes | 2D ROIs x normal | FP validation; plus 3D scenes of 0-8 x 0-8 objects through a freshly configured "
-            "PerceptionEvaluationManager (detection / fp_validation, configured policy and max_matchable_radii); "
+            "3D boxes | 2D ROIs x normal | FP validation; representations: three dataset names per label member (Label.name), keyword arguments "
+            "left at their documented defaults (policy DEFAULT, mode CENTERDISTANCE, transforms None in ego-frame scenes, no target labels), a "
+            "radius list without target labels; plus 3D (2/3) and 2D-ROI (1/3) scenes of 0-8 x 0-8 objects through a freshly configured "
+            "PerceptionEvaluationManager (detection / fp_validation / tracking and the 2d tasks, configured policy and max_matchable_radii, "
+            "25 % with target uuids: the uuid-selected ground truths reach the matcher and unpaired estimates are dropped afterwards); "
             "non-trivial = >= 2 estimates, >= 1 GT and at least one pair formed (manager: at least one pair formed)")
     assumptions = ["objects carry geometry (3D boxes or 2D ROIs); the ROI-less 2D dispatch is C11",
                    "matching values are finite floats (NaN/inf values are treated as NaN cells)"]
-    not_proved = ["non-mutation of the caller's lists (runtime observation on every generated case)",
+    not_proved = ["non-mutation of the caller's lists and objects (runtime observation on every generated case: list identity and a "
+                  "per-attribute fingerprint of every estimate / ground truth)",
                   "the geometric meaning of the matching values (C06)"]
 
     def correspondences(self):
